@@ -145,6 +145,30 @@ func genSched(tier string, seed uint64) {
 			emit("sched %s %s %s 1", d.format, d.hex, schedStr(c))
 		}
 	}
+	// payloads larger than 64 KiB delivered in 4 KiB chunks with an empty read before every chunk (and whole); headers that
+	// announce such payloads with nothing, or only a little, behind them
+	for _, n := range []int{65536, 65537, 70000} {
+		for _, major := range []byte{0x40, 0x60} {
+			hx := fmt.Sprintf("%x", headBytes(major, uint64(n), 0)) + strings.Repeat("61", n)
+			var c []int
+			for left := n + 5; left > 0; left -= 4096 {
+				c = append(c, 0, 4096)
+			}
+			emit("sched cbor %s %s 0", hx, schedStr(c))
+			emit("sched cbor %s %s 1", hx, schedStr(c))
+			emit("schedb cbor %s %s 0", hx, schedStr(c))
+			emit("sched cbor %s 3.0.1.0.1.0.%d.0.0.%d 0", hx, n/2, n)
+		}
+	}
+	for _, hx := range []string{"7a00010001", "7a00100000", "5a00010001", "7a0001000161", "5a00100000010203", "827a00010001", "7b0000000000010001", "7a02000000", "7a02000001"} {
+		n := len(hx) / 2
+		allSplits(n, func(c []int) {
+			emit("sched cbor %s %s 0", hx, schedStr(c))
+			emit("sched cbor %s %s 1", hx, schedStr(c))
+		})
+		emit("schedb cbor %s - 0", hx)
+		emit("schedk cbor %s - 0", hx)
+	}
 	// a long run of empty reads strictly INSIDE a multi-byte payload (after its first byte has arrived): the bulk
 	// read keeps waiting for the rest, it neither gives up with partial data nor reports an error
 	for _, hx := range []string{"1b0102030405060708", "190102", "1a01020304", "3b0000000000000122", "fb400921fb54442d18", "fa40490fdb",
